@@ -182,6 +182,13 @@ def main():
     if build_ok:
         axioms, aout = audit_axioms(pid, names, workdir)
     discharged = [n for n in names if n in axioms and set(axioms[n]) <= ALLOWED_AXIOMS] if build_ok else []
+    if build_ok and names and tier == "thorough":
+        # independent re-check of the compiled module by the toolchain's external checker
+        rcl, lout = runner.sh(["lake", "env", "leanchecker", "NetflowModel.Props." + pid], cwd=runner.LEAN, timeout=1800)
+        notes.append("leanchecker NetflowModel.Props.%s rc=%s" % (pid, rcl))
+        if rcl != 0:
+            discharged = []
+            notes.append("leanchecker output: " + lout[-400:])
     obligations_broken = (not build_ok) or bool(forbidden) or len(discharged) != len(names)
     if not build_ok:
         # the driver must still exist for the search below: rebuild it alone (it does not import Props)
